@@ -208,6 +208,10 @@ theorem C17_error_member_reflects_the_returned_error :
 theorem C17_a_failing_closure_is_answered :
     Skeleton.current.ucRecovers = true ∧ Skeleton.current.ucNonErrorPanicMapped = true ∧ Skeleton.current.panicSitesCanonical = true ∧ Skeleton.current.clCallViaUtilsCall = true := by decide
 
+/-- `Receive` fails only on a closed table — a context that is done already is registered and reported through the receive function, to that one caller — and the stub panics only on failures of the link (both checked against the regenerated skeleton; `utils/broadcaster.go` is outside this property's anchors). Otherwise a handler that invokes a callable (or makes any call) with a context of its own that has expired ends the link and later spec-conformant frames of the peer are neither accepted nor answered. -/
+theorem C17_frames_keep_flowing_after_an_expired_call :
+    Skeleton.current.bcReceiveErrorsOnlyClosed = true ∧ Skeleton.current.panicSitesCanonical = true := by decide
+
 end Panrpc.Wire
 
 #print axioms Panrpc.Wire.C17_closure_arglist_is_array
@@ -222,3 +226,4 @@ end Panrpc.Wire
 #print axioms Panrpc.Wire.C17_codec_methods_are_plain
 #print axioms Panrpc.Wire.C17_error_member_reflects_the_returned_error
 #print axioms Panrpc.Wire.C17_a_failing_closure_is_answered
+#print axioms Panrpc.Wire.C17_frames_keep_flowing_after_an_expired_call
